@@ -176,6 +176,7 @@ def apply_seq(recipe, seq):
     return c
 
 
+@lanes.pathwise
 def seq_item(item):
     recipe, seq = item
     rep = common.Report()
@@ -240,6 +241,7 @@ def finding_key(libname, kind, what):
     return f'resolve={libname}/{fam}/{what}'
 
 
+@lanes.pathwise
 def subst_item(item):
     libname, kind, in_mask, out_mask, variant, post = item
     rep = common.Report()
